@@ -80,6 +80,16 @@ def itemOf? (t : Term) : Option Item :=
         (← natLt? 4294967296 ts) (← bytesLen? 4 rid) (← natLt? 4294967296 asn) (← embOf? e)))
   | .list [.atom "ev-mrt", src, fam, ap, nl, att, nh, ts, e] => do
       pure (.ev (.mrt (← changeOf? src fam ap nl att nh ts) (← embOf? e)))
+  | .list [.atom "ev-live", .list [.atom "cfg", lrid, lasn, _lhold, ap], .list [.atom "popen", rasn, _rhold, rrid],
+      .list (.atom "acts" :: acts), late, .list [.atom "opens", so, ro], .list (.atom "embs" :: es)] => do
+      let act? : Term → Option (Bool × Nat × Bytes) := fun t =>
+        match t with
+        | .list [.atom "ann", p, n] => do pure (true, (← natLt? 4294967296 p), (← asBytes? n))
+        | .list [.atom "wd", p, n] => do pure (false, (← natLt? 4294967296 p), (← asBytes? n))
+        | _ => none
+      pure (.ev (.live (← asBool? ap) (← natLt? 4294967296 lrid) (← natLt? 4294967296 lasn) (← natLt? 4294967296 rasn)
+        (← natLt? 4294967296 rrid) (← acts.mapM act?) (← asBool? late) (contentOf so) (contentOf ro)
+        (← es.mapM embOf?)))
   | .list [.atom "ev-locup", rid, asn, e] => do
       pure (.ev (.locUp (← bytesLen? 4 rid) (← natLt? 4294967296 asn) (← embOf? e)))
   | .list [.atom "ev-down", peer, up, r, e] => do
